@@ -97,7 +97,8 @@ impl Monitor for C11 {
             for i in 0..n_rand {
                 if ctx.mine() {
                     let mut rng = ctx.rng(&format!("rand/{}", ev.name()), i);
-                    let len = 1 + rng.below(8);
+                    // mostly 1..8 arguments, one list in five has 9..40
+                    let len = if rng.chance(1, 5) { 9 + rng.below(32) } else { 1 + rng.below(8) };
                     let args: Vec<String> = (0..len).map(|_| if rng.chance(2, 3) { rng.pick(&big).clone() } else { rng.pick(&pool).clone() }).collect();
                     let name = *rng.pick(&names);
                     let s = format!("{}({})", name, args.join(","));
